@@ -19,6 +19,8 @@ package generator
 import (
 	"go/token"
 	"strings"
+	"unicode"
+	"unicode/utf8"
 
 	"k8s.io/klog/v2"
 
@@ -68,18 +70,7 @@ func golangTrackerLocalName(tracker namer.ImportTracker, t types.Name) string {
 	dirs := strings.Split(path, namer.GoSeperator)
 	for n := len(dirs) - 1; n >= 0; n-- {
 		// follow kube convention of not having anything between directory names
-		name := strings.Join(dirs[n:], "")
-		name = strings.Replace(name, "_", "", -1)
-		// These characters commonly appear in import paths for go
-		// packages, but aren't legal go names. So we'll sanitize.
-		name = strings.Replace(name, ".", "", -1)
-		name = strings.Replace(name, "-", "", -1)
-		// If the import name is a Go keyword, prefix with an underscore.
-		// (Before looking for collisions: two packages whose names are
-		// the same keyword must not both be called "_keyword".)
-		if token.Lookup(name).IsKeyword() {
-			name = "_" + name
-		}
+		name := importName(strings.Join(dirs[n:], ""))
 		if _, found := tracker.PathOf(name); found {
 			// This name collides with some other package
 			continue
@@ -87,4 +78,27 @@ func golangTrackerLocalName(tracker namer.ImportTracker, t types.Name) string {
 		return name
 	}
 	panic("can't find import for " + path)
+}
+
+// importName turns the concatenated directory names of an import path into a
+// legal Go package name.  Underscores are dropped (kube convention), as is
+// everything else which commonly appears in import paths but is not legal in a
+// Go name ('.', '-', '~', '+', ...).  A name which is empty, starts with a
+// digit or is a Go keyword is made legal.
+func importName(s string) string {
+	name := strings.Map(func(r rune) rune {
+		if unicode.IsLetter(r) || unicode.IsDigit(r) {
+			return r
+		}
+		return -1
+	}, s)
+	if name == "" {
+		name = "pkg"
+	}
+	// (Before looking for collisions: two packages whose names are the
+	// same keyword must not both be called "_keyword".)
+	if first, _ := utf8.DecodeRuneInString(name); unicode.IsDigit(first) || token.Lookup(name).IsKeyword() {
+		name = "_" + name
+	}
+	return name
 }
